@@ -38,8 +38,9 @@ RULE = ('stream "doc": whole documents of the property\'s grammar (article/book,
         'nested), quote/center/quotation/flushleft, footnotes, \\mbox/\\fbox, inline and display mathematics, \\verb and verbatim, labels '
         'and references, table floats with captions, nesting depth <= 4); every text leaf is a unique marker word W[a-z]+, and '
         'substitution sites (``W\'\', `W\', W--W, W---W, W\'W) are placed in running text, in verbatim material and in mathematics. '
-        'stream "small": every sequence of at most 3 (quick) / 4 (thorough) atoms of two alphabets (text, blank line, braces, \\bf, '
-        'section/subsection, itemize/item, quote | tabular, &, \\\\, \\hline, $, \\[ \\], \\verb, \\footnote, \\mbox) inside the document '
+        'stream "small": every sequence of at most 3 (quick) / 4 (thorough) atoms of three alphabets (text, blank line, braces, \\bf, '
+        'section/subsection, itemize/item, quote | tabular, &, \\\\, \\hline, $, \\[ \\], \\verb, \\footnote, \\mbox | text, blank line, '
+        'section, nested \\begin{document}, \\end{document}: up to 5 atoms) inside the document '
         'body, ill-nested ones included (exhaustive). stream "malformed": random atom sequences over a larger alphabet and generated '
         'documents with a line deleted. A case is non-trivial when the parsed tree has a node at depth >= 3 below the document '
         'and the stream contains at least one item that a digest method absorbs into another node.')
@@ -318,12 +319,16 @@ def gen_doc(rng):
 ALPHA_A = ['W ', '\n\n', '{', '}', '\\bf ', '\\section{W}', '\\subsection{W}', '\\begin{itemize}', '\\item ', '\\end{itemize}',
            '\\begin{quote}', '\\end{quote}']
 ALPHA_B = ['W ', '\\begin{tabular}{ll}', '&', '\\\\', '\\end{tabular}', '\\hline ', '$', '\\verb|W|', '\\footnote{W}', '\\mbox{W}']
+# a nested document environment is the only modelled item below PAR_LEVEL that is not digested by SectionUtils.digest: closed, it
+# leaves something behind a lower-level item in a child list, which is what the "break" of Macro.paragraphs is about
+# (theindex / \\printindex have a digest of their own, IndexUtils.digest, which the Model does not have)
+ALPHA_C = ['W ', '\n\n', '\\section{W}', '\\begin{document}', '\\end{document}']
 ALPHA_M = ALPHA_A + ALPHA_B[1:] + ['\\[', '\\]', '\\par ', '\\begingroup ', '\\endgroup ', '\\end{document}', '\\textbf{W}', '\\item[W] ',
                                    '\\begin{description}', '\\end{description}', ' ', '\\begin{verbatim}\nW--W\n\\end{verbatim}', '\\begin{table}',
                                    '\\end{table}', '\\caption{W}', '\\multicolumn{2}{l}{W}', '\\begin{enumerate}', '\\end{enumerate}',
                                    '\\chapter{W}', '\\paragraph{W}', '\\begin{equation}', '\\end{equation}', '\\(', '\\)', '$$', '\\small ',
                                    '\\mbox{$W$}', '``', "''", '--', '\\label{a}', '\\begin{center}', '\\end{center}', '\\begin{figure}',
-                                   '\\end{figure}', '\\setcounter{enumi}{3}', '\\subsubsection*{W}', '\\emph{W \\textit{W}}']
+                                   '\\end{figure}', '\\setcounter{enumi}{3}', '\\subsubsection*{W}', '\\emph{W \\textit{W}}', '\\begin{document}']
 
 
 def atoms_source(atoms, close=True):
@@ -411,13 +416,13 @@ def streams(rng, tier, boost):
     out = []
     quick = tier == 'quick'
     maxlen = (3 if quick else 4) + (1 if boost > 1 and quick else 0)
-    for alpha in (ALPHA_A, ALPHA_B):
-        for atoms in enum_atoms(alpha, maxlen):
+    for alpha in (ALPHA_A, ALPHA_B, ALPHA_C):
+        for atoms in enum_atoms(alpha, 5 if alpha is ALPHA_C else maxlen):
             out.append(('small', dict(kind='atoms', atoms=atoms, close=True)))
-    ndoc = (700 if quick else 7000) * boost
+    ndoc = (600 if quick else 5000) * boost
     for _ in range(ndoc):
         out.append(('doc', gen_doc(rng)))
-    nmal = (1200 if quick else 10000) * boost
+    nmal = (900 if quick else 6000) * boost
     for i in range(nmal):
         if i % 4 == 3:
             d = gen_doc(rng)
